@@ -226,7 +226,7 @@ def run_one(case):
     wit = dict(case)
     op = None
     _DT[0] = case.get("dt", "default")
-    _NC[0] = bool(case.get("noncontig"))
+    _NC[0] = case.get("noncontig") or False
     try:
         if f in ("resize", "resize-shift"):
             x = label(shape, cplx)
